@@ -96,7 +96,15 @@ Theorem C10_tamper :
 Proof. intros c k b w d v content H Hs. exact (tamper_refused true c k b w d v content H Hs (or_introl eq_refl)). Qed.
 Print Assumptions C10_tamper.
 
-(* (2'), (3') the library AS IT IS has no pre-check (PRECHECK_IN_FORCE = false):
+(* the code state the correspondence runs against (Model/Request.v) IS the one of (1)-(3):
+   pre-check in force (fix: f6d4380b), F16 repaired (fix: 0b54cc6b), options read in the
+   entity's own section (fix: dace676c) *)
+Theorem C10_code_state :
+  parse_request_now = parse_request true true /\ OPTIONS_OWN_CONTEXT = true.
+Proof. split; reflexivity. Qed.
+Print Assumptions C10_code_state.
+
+(* (2'), (3') BEFORE fix: f6d4380b the library had no pre-check (pre = false):
    there (2) is REFUTED - a forged request carrying the genuine content inside
    Extensions and the genuine signature as its own child is handed over, and no
    signature child of the root covers the root - ... *)
